@@ -425,3 +425,21 @@ for label, va, vb, meth in MIXED:
             c.scenario("bare-number" if bare else "two-quantities", pre)
         c.ensures("obs(qa) == old(obs(qa)) and obs(qb) == old(obs(qb))", "operands-keep-value-and-number-type")
         c.no_raise()
+
+
+# ---- an exact number times an uncertain array: every element's uncertainty is scaled by |number| -- its own uncertainty, not the largest ------
+for meth in ("__rmul__", "__mul__"):
+    @contract(f"{Q}.{meth}", ["C08"], name=f"Quantity.{meth}[number-and-array-with-elementwise-uncertainties]")
+    def _(c, meth=meth):
+        c.bound = "arrays of three elements with one uncertainty per element (all symbolic), multiplied by a real number"
+
+        def pre(bd):
+            es = [bd.real(f"e{i}") for i in range(3)]
+            for e in es:
+                bd.assume_rel(e, ">=", 0)
+            xs, arr, a = _arrq(bd, "x", "m", err=bd.call(bd.const(_np.array), bd.list(list(es))))
+            return dict(args=[a, bd.real("k")], env=dict(xs=xs, es=es))
+        c.scenario("k * array", pre)
+        c.ensures("all([near(r, x * other) for r, x in zip(elems(result.magnitude.value), xs)])", "values-scaled")
+        c.ensures("len(elems(result.magnitude.error)) == 3 and all([near(r, e * absv(other)) for r, e in zip(elems(result.magnitude.error), es)])", "each-uncertainty-scaled-by-the-absolute-number")
+        c.no_raise()
